@@ -487,7 +487,10 @@ class vDDDTypes(TimeBase):
         else: # isinstance(dt, tuple)
             self.params = Parameters({'value': 'PERIOD'})
 
-        tzid = tzid_from_dt(dt) if isinstance(dt, (datetime, time)) else None
+        if isinstance(dt, tuple) and dt and isinstance(dt[0], datetime):
+            tzid = tzid_from_dt(dt[0])  # the period is written in the zone of its start
+        else:
+            tzid = tzid_from_dt(dt) if isinstance(dt, (datetime, time)) else None
         if tzid is not None and tzid != 'UTC':
             self.params.update({'TZID': tzid})
 
